@@ -428,4 +428,265 @@ Section Core.
           assert (E : dimv (q_unit q) x = dimv (q_unit q) x + - dimv common x + dimv common x) by ring.
           rewrite E, Eb. ring.
   Qed.
+
+  (* ------------------------------------------------------------ + and - *)
+  Lemma smaller_unit_cases a b :
+    smaller_unit QcN res a b = a \/ smaller_unit QcN res a b = b.
+  Proof. unfold smaller_unit. destruct (n_leb QcN _ _); auto. Qed.
+
+  Lemma DenQ_qneg a : DenQ (qneg QcN a) = - DenQ a.
+  Proof. unfold DenQ, qneg. simpl. ring. Qed.
+
+  Lemma qaddsub_sound op zl (s : Qc) a b r :
+    (forall x y, op x y = x + s * y) ->
+    (forall q, q_val (zl q) = s * q_val q /\ q_unit (zl q) = q_unit q) ->
+    unit_int (q_unit a) = true -> unit_int (q_unit b) = true ->
+    qaddsub QcN tbl res keys op zl a b = Ok r ->
+    DenQ r = DenQ a + s * DenQ b
+    /\ unit_int (q_unit r) = true
+    /\ (q_unit r = q_unit a \/ q_unit r = q_unit b).
+  Proof.
+    intros Hop Hzl Ha Hb. unfold qaddsub.
+    destruct (q_is_zero QcN a) eqn:Za.
+    { intros H. injection H as <-. apply is_zero_true in Za. destruct (Hzl b) as [Hv Hu].
+      unfold DenQ. rewrite Hv, Hu, Za. repeat split; [ring | exact Hb | auto]. }
+    destruct (q_is_zero QcN b) eqn:Zb.
+    { intros H. injection H as <-. apply is_zero_true in Zb.
+      unfold DenQ. rewrite Zb. repeat split; [ring | exact Ha | auto]. }
+    destruct (unit_eq keys (q_unit a) (q_unit b)) eqn:Eu.
+    { intros H. injection H as <-. unfold DenQ. simpl.
+      rewrite Hop, <- (unit_eq_Den _ _ Ha Hb Eu). repeat split; [ring | exact Ha | auto]. }
+    set (R := smaller_unit QcN res (q_unit a) (q_unit b)).
+    assert (HR : unit_int R = true)
+      by (destruct (smaller_unit_cases (q_unit a) (q_unit b)) as [E|E]; unfold R; rewrite E; assumption).
+    destruct (convert_to QcN tbl res keys a R) as [a'|] eqn:Ca; [|discriminate].
+    destruct (convert_to QcN tbl res keys b R) as [b'|] eqn:Cb; [|discriminate].
+    cbn [bind]. intros H. injection H as <-.
+    destruct (convert_to_sound _ _ _ Ha HR Ca) as (_ & _ & _ & Va & _).
+    destruct (convert_to_sound _ _ _ Hb HR Cb) as (_ & _ & _ & Vb & _).
+    unfold DenQ. simpl. rewrite Hop. repeat split.
+    - rewrite <- Va, <- Vb. ring.
+    - exact HR.
+    - apply smaller_unit_cases.
+  Qed.
+
+  Theorem qadd_sound a b r :
+    unit_int (q_unit a) = true -> unit_int (q_unit b) = true ->
+    qadd QcN tbl res keys a b = Ok r ->
+    DenQ r = DenQ a + DenQ b /\ unit_int (q_unit r) = true
+    /\ (q_unit r = q_unit a \/ q_unit r = q_unit b).
+  Proof.
+    intros Ha Hb H. unfold qadd in H.
+    assert (H1 : forall x y : Qc, Qcplus x y = x + 1 * y) by (intros; ring).
+    assert (H2 : forall q : quantity (T := Qc), q_val q = 1 * q_val q /\ q_unit q = q_unit q)
+      by (intros; split; [ring | reflexivity]).
+    destruct (qaddsub_sound Qcplus (fun q => q) 1 a b r H1 H2 Ha Hb H) as (E & I & U).
+    split; [rewrite E; ring | auto].
+  Qed.
+
+  Theorem qsub_sound a b r :
+    unit_int (q_unit a) = true -> unit_int (q_unit b) = true ->
+    qsub QcN tbl res keys a b = Ok r ->
+    DenQ r = DenQ a - DenQ b /\ unit_int (q_unit r) = true
+    /\ (q_unit r = q_unit a \/ q_unit r = q_unit b).
+  Proof.
+    intros Ha Hb H. unfold qsub in H.
+    assert (H1 : forall x y : Qc, Qcminus x y = x + (-(1)) * y) by (intros; ring).
+    assert (H2 : forall q : quantity (T := Qc),
+               q_val (qneg QcN q) = (-(1)) * q_val q /\ q_unit (qneg QcN q) = q_unit q)
+      by (intros; split; [simpl; ring | reflexivity]).
+    destruct (qaddsub_sound Qcminus (qneg QcN) (-(1)) a b r H1 H2 Ha Hb H) as (E & I & U).
+    split; [rewrite E; ring | auto].
+  Qed.
+
+  (* ------------------------------------------------------------ * / ^ neg *)
+  Lemma qmul_sound a b : DenQ (qmul QcN a b) = DenQ a * DenQ b.
+  Proof. unfold DenQ, qmul, umul. simpl. rewrite Den_app. ring. Qed.
+
+  Lemma qdiv_sound a b r :
+    unit_int (q_unit a) = true -> unit_int (q_unit b) = true ->
+    qdiv QcN a b = Ok r ->
+    DenQ r = DenQ a / DenQ b /\ DenQ b <> 0 /\ unit_int (q_unit r) = true.
+  Proof.
+    intros Ha Hb. unfold qdiv. destruct (q_is_zero QcN b) eqn:Zb; [discriminate|].
+    intros H. injection H as <-. apply is_zero_false in Zb. pose proof (Den_nz _ Hb) as Hd.
+    assert (Hn : DenQ b <> 0).
+    { unfold DenQ. intros E. apply Qcmult_integral in E. destruct E; contradiction. }
+    repeat split; [| exact Hn |].
+    - unfold DenQ, qdiv_raw. simpl. rewrite Den_udiv by assumption. field. auto.
+    - simpl. apply unit_int_app. split; [exact Ha | apply unit_int_uinvert, Hb].
+  Qed.
+
+  Lemma qpow_sound a n r :
+    unit_int (q_unit a) = true -> qpow QcN a n = Ok r ->
+    DenQ r = qpowz (DenQ a) n /\ unit_int (q_unit r) = true.
+  Proof.
+    intros Ha. unfold qpow. destruct (_ && _); [discriminate|].
+    intros H. injection H as <-. unfold DenQ. simpl. split.
+    - rewrite qc_pow_int, Den_upower by exact Ha. symmetry. apply qpowz_mult_base.
+    - apply unit_int_upower; [apply Qc_is_int_of_Z | exact Ha].
+  Qed.
+
+  (* ------------------------------------------------------------ comparisons *)
+  Lemma Qc_cmp_mult_pos x y d : 0 < d -> Qc_cmp (x * d) (y * d) = Qc_cmp x y.
+  Proof.
+    intros Hd. unfold Qc_cmp. destruct (x ?= y) eqn:E.
+    - apply Qceq_alt in E. subst. apply Qceq_alt. reflexivity.
+    - apply Qclt_alt in E. apply Qclt_alt. apply Qcmult_lt_compat_r; assumption.
+    - apply Qcgt_alt in E. apply Qcgt_alt. apply Qcmult_lt_compat_r; assumption.
+  Qed.
+
+  Lemma Qc_cmp_antisym x y : Qc_cmp y x = CompOpp (Qc_cmp x y).
+  Proof.
+    unfold Qc_cmp. destruct (x ?= y) eqn:E; simpl.
+    - apply Qceq_alt in E. subst. apply Qceq_alt. reflexivity.
+    - apply Qclt_alt in E. apply Qcgt_alt. exact E.
+    - apply Qcgt_alt in E. apply Qclt_alt. exact E.
+  Qed.
+
+  Lemma Qc_eqb_cmp x y : Qc_eqb x y = match Qc_cmp x y with Eq => true | _ => false end.
+  Proof.
+    unfold Qc_cmp. destruct (x ?= y) eqn:E.
+    - apply Qceq_alt in E. apply Qc_eqb_eq. exact E.
+    - apply Qc_eqb_neq. intros ->. apply Qclt_alt in E. apply (Qclt_not_eq _ _ E). reflexivity.
+    - apply Qc_eqb_neq. intros ->. apply Qcgt_alt in E. apply (Qclt_not_eq _ _ E). reflexivity.
+  Qed.
+
+  (* the one-sided conversion: ordering of a against b, decided in a's unit *)
+  Theorem pcmp_exact a b :
+    unit_int (q_unit a) = true -> unit_int (q_unit b) = true ->
+    forall c, pcmp QcN tbl res keys a b = OOk c -> c = Qc_cmp (DenQ a) (DenQ b).
+  Proof.
+    intros Ha Hb c. unfold pcmp. simpl.
+    destruct (convert_to QcN tbl res keys b (q_unit a)) as [b'|] eqn:Cb; [|discriminate].
+    intros H. injection H as <-.
+    destruct (convert_to_sound _ _ _ Hb Ha Cb) as (_ & _ & _ & Vb & _).
+    unfold DenQ. rewrite <- Vb. symmetry. apply Qc_cmp_mult_pos. apply Den_pos, Ha.
+  Qed.
+
+  Theorem qeq_exact a b b' :
+    unit_int (q_unit a) = true -> unit_int (q_unit b) = true ->
+    convert_to QcN tbl res keys b (q_unit a) = Ok b' ->
+    qeq QcN tbl res keys a b = match Qc_cmp (DenQ a) (DenQ b) with Eq => true | _ => false end.
+  Proof.
+    intros Ha Hb Cb. unfold qeq. rewrite Cb. simpl.
+    destruct (convert_to_sound _ _ _ Hb Ha Cb) as (_ & _ & _ & Vb & _).
+    unfold DenQ. rewrite <- Vb. rewrite Qc_cmp_mult_pos by (apply Den_pos, Ha).
+    apply Qc_eqb_cmp.
+  Qed.
+
+  (* ------------------------------------------------------------ Op::ConvertTo *)
+  Theorem vm_convert_sound a b q :
+    unit_int (q_unit a) = true -> unit_int (q_unit b) = true ->
+    vm_convert QcN tbl res keys a b = Ok q ->
+    q_unit q = q_unit b /\ q_simp q = false /\ DenQ q = DenQ a
+    /\ q_target q = (if Qc_eqb (q_val b) 1 then None else Some (q_val b, q_unit b)).
+  Proof.
+    intros Ha Hb. unfold vm_convert.
+    destruct (convert_to QcN tbl res keys a (q_unit b)) as [c|] eqn:C; [|discriminate].
+    cbn [bind]. intros H. injection H as <-. simpl.
+    destruct (convert_to_sound _ _ _ Ha Hb C) as (U & _ & _ & V & _).
+    repeat split; [exact U | unfold DenQ; simpl; rewrite U; exact V].
+  Qed.
+
+  (* ------------------------------------------------------------ expressions *)
+  Fixpoint sem_val (e : expr (T := Qc)) : Qc :=
+    match e with
+    | ELit v u => v * Den u
+    | EAdd a b => sem_val a + sem_val b
+    | ESub a b => sem_val a - sem_val b
+    | EMul a b => sem_val a * sem_val b
+    | EDiv a b => sem_val a / sem_val b
+    | ENeg a => - sem_val a
+    | EPow a n => qpowz (sem_val a) n
+    | EConv a _ => sem_val a
+    end.
+
+  Fixpoint sem_dim (e : expr (T := Qc)) (x : nat) : Qc :=
+    match e with
+    | ELit _ u => dimv u x
+    | EAdd a _ | ESub a _ => sem_dim a x
+    | EMul a b => sem_dim a x + sem_dim b x
+    | EDiv a b => sem_dim a x - sem_dim b x
+    | ENeg a => sem_dim a x
+    | EPow a n => Qc_of_Z n * sem_dim a x
+    | EConv _ u => dimv u x
+    end.
+
+  Fixpoint well_dim (e : expr (T := Qc)) : Prop :=
+    match e with
+    | ELit _ _ => True
+    | EAdd a b | ESub a b => well_dim a /\ well_dim b /\ forall x, sem_dim a x = sem_dim b x
+    | EMul a b | EDiv a b => well_dim a /\ well_dim b
+    | ENeg a | EPow a _ => well_dim a
+    | EConv a u => well_dim a /\ forall x, sem_dim a x = dimv u x
+    end.
+
+  Definition expr_int (e : expr (T := Qc)) : bool := forallb unit_int (expr_units e).
+
+  Theorem eval_sound e : expr_int e = true ->
+    forall q, eval QcN tbl res keys e = Ok q ->
+    DenQ q = sem_val e /\ unit_int (q_unit q) = true
+    /\ (well_dim e -> forall x, dimv (q_unit q) x = sem_dim e x).
+  Proof.
+    unfold expr_int.
+    induction e as [v u | a IHa b IHb | a IHa b IHb | a IHa b IHb | a IHa b IHb | a IHa | a IHa n | a IHa u];
+      simpl; intros Hi q.
+    - intros H. injection H as <-. rewrite andb_true_r in Hi. repeat split; auto.
+    - rewrite forallb_app in Hi. apply andb_true_iff in Hi. destruct Hi as [Hia Hib].
+      destruct (eval QcN tbl res keys a) as [x|] eqn:Ea; [|discriminate].
+      destruct (eval QcN tbl res keys b) as [y|] eqn:Eb; [|discriminate]. cbn [bind].
+      destruct (IHa Hia x eq_refl) as (Va & Ia & Da). destruct (IHb Hib y eq_refl) as (Vb & Ib & Db).
+      intros H. destruct (qadd_sound _ _ _ Ia Ib H) as (V & I & U).
+      repeat split; [rewrite V, Va, Vb; reflexivity | exact I |].
+      intros (Wa & Wb & Wab) z. destruct U as [U|U]; rewrite U.
+      + apply Da, Wa.
+      + rewrite Wab. apply Db, Wb.
+    - rewrite forallb_app in Hi. apply andb_true_iff in Hi. destruct Hi as [Hia Hib].
+      destruct (eval QcN tbl res keys a) as [x|] eqn:Ea; [|discriminate].
+      destruct (eval QcN tbl res keys b) as [y|] eqn:Eb; [|discriminate]. cbn [bind].
+      destruct (IHa Hia x eq_refl) as (Va & Ia & Da). destruct (IHb Hib y eq_refl) as (Vb & Ib & Db).
+      intros H. destruct (qsub_sound _ _ _ Ia Ib H) as (V & I & U).
+      repeat split; [rewrite V, Va, Vb; reflexivity | exact I |].
+      intros (Wa & Wb & Wab) z. destruct U as [U|U]; rewrite U.
+      + apply Da, Wa.
+      + rewrite Wab. apply Db, Wb.
+    - rewrite forallb_app in Hi. apply andb_true_iff in Hi. destruct Hi as [Hia Hib].
+      destruct (eval QcN tbl res keys a) as [x|] eqn:Ea; [|discriminate].
+      destruct (eval QcN tbl res keys b) as [y|] eqn:Eb; [|discriminate]. cbn [bind].
+      destruct (IHa Hia x eq_refl) as (Va & Ia & Da). destruct (IHb Hib y eq_refl) as (Vb & Ib & Db).
+      intros H. injection H as <-. repeat split.
+      + rewrite qmul_sound, Va, Vb. reflexivity.
+      + simpl. apply unit_int_app. auto.
+      + intros (Wa & Wb) z. simpl. unfold umul. rewrite dimv_app, Da, Db by assumption. reflexivity.
+    - rewrite forallb_app in Hi. apply andb_true_iff in Hi. destruct Hi as [Hia Hib].
+      destruct (eval QcN tbl res keys a) as [x|] eqn:Ea; [|discriminate].
+      destruct (eval QcN tbl res keys b) as [y|] eqn:Eb; [|discriminate]. cbn [bind].
+      destruct (IHa Hia x eq_refl) as (Va & Ia & Da). destruct (IHb Hib y eq_refl) as (Vb & Ib & Db).
+      intros H. destruct (qdiv_sound _ _ _ Ia Ib H) as (V & _ & I).
+      repeat split; [rewrite V, Va, Vb; reflexivity | exact I |].
+      intros (Wa & Wb) z. unfold qdiv in H. destruct (q_is_zero QcN y); [discriminate|].
+      injection H as <-. simpl. unfold udiv. rewrite dimv_app, dimv_uinvert, Da, Db by assumption.
+      reflexivity.
+    - destruct (eval QcN tbl res keys a) as [x|] eqn:Ea; [|discriminate]. cbn [bind].
+      destruct (IHa Hi x eq_refl) as (Va & Ia & Da).
+      intros H. injection H as <-. repeat split.
+      + rewrite DenQ_qneg, Va. reflexivity.
+      + exact Ia.
+      + intros Wa z. simpl. apply Da, Wa.
+    - destruct (eval QcN tbl res keys a) as [x|] eqn:Ea; [|discriminate]. cbn [bind].
+      destruct (IHa Hi x eq_refl) as (Va & Ia & Da).
+      intros H. destruct (qpow_sound _ _ _ Ia H) as (V & I).
+      repeat split; [rewrite V, Va; reflexivity | exact I |].
+      intros Wa z. unfold qpow in H. destruct (_ && _); [discriminate|]. injection H as <-.
+      simpl. rewrite dimv_upower, Da by assumption. reflexivity.
+    - apply andb_true_iff in Hi. destruct Hi as [Hu Hia].
+      destruct (eval QcN tbl res keys a) as [x|] eqn:Ea; [|discriminate]. cbn [bind].
+      destruct (IHa Hia x eq_refl) as (Va & Ia & Da).
+      intros H. destruct (convert_to_sound _ _ _ Ia Hu H) as (U & _ & _ & V & _).
+      repeat split.
+      + unfold DenQ. rewrite U, V. exact Va.
+      + rewrite U. exact Hu.
+      + intros _ z. rewrite U. reflexivity.
+  Qed.
 End Core.
